@@ -14,11 +14,13 @@ LEVEL = "fault_enumeration"
 RULE = (
     "configurations = solver x scenario x continue_with_unconverged x reuse_lu_decomposition; for each, the decision "
     "points of the 5-step run are recorded by a dry run and every subset of size 1 (quick; size <= 2 for a subset of configurations, "
-    "all configurations in the thorough tier) is forced to fail; one case = (configuration, first forced point i) and covers {i} and all {i,j}, j>i. "
+    "all configurations in the thorough tier) is forced to fail; one case = (configuration, first forced point i) and covers {i} and all {i,j}, j>i; "
+    "every Newton decision point is additionally forced to diverge to a non-finite residual (fault kind 'nan', singletons). "
     "A case is non-trivial if at least one forced failure was effective (the helper really reported non-convergence)"
 )
 ASSUMPTIONS = [
     "a forced Newton failure is the real fsolve run with newton_max_iter=1 and unreachable tolerances (genuine unconverged iterate, genuine fsolve warning)",
+    "fault kind 'nan': the real fsolve with unchanged options on a residual that is NaN at every Newton iterate after the initial guess (Jacobian evaluations untouched); with continue_with_unconverged an error raised later is accepted (continuing from a non-finite state is meaningless), a silent return is not",
     "a forced fixed-point failure answers max_iter=2 and a NaN tolerance for that loop through the options object the solver reads in every step",
     "accepted steps are counted through system.step_callback (called once per accepted step by every fixed-step and static solver)",
     "'a warning' means the warnings module (observable by callers); text printed to stdout does not count",
@@ -135,17 +137,20 @@ def _make_solver(name, system, options):
     return getattr(S, name)(system, t1, DT, options=options)
 
 
-def run_once(solver, scen, flag, reuse, fail_at):
+def run_once(solver, scen, flag, reuse, fail_at, mode="maxiter"):
     """one execution under a fault plan.  Returns (outcome dict, plan)"""
     from cardillo.solver import SolverOptions
     from vp.core import faults
     from vp.core.quiet import capture
 
     cfg = DYN[solver]
-    plan = faults.Plan(fail_at)
+    plan = faults.Plan(fail_at, mode=mode)
     system = _build(scen)
-    real = SolverOptions(continue_with_unconverged=flag, reuse_lu_decomposition=reuse, fixed_point_max_iter=200,
-                         newton_atol=1e-8, newton_rtol=1e-8, fixed_point_atol=1e-8, fixed_point_rtol=1e-8)
+    kw = dict(fixed_point_max_iter=200)
+    if mode == "nan":  # budget: after a non-finite iterate every later solve runs to its iteration limit
+        kw = dict(fixed_point_max_iter=30, newton_max_iter=6)
+    real = SolverOptions(continue_with_unconverged=flag, reuse_lu_decomposition=reuse,
+                         newton_atol=1e-8, newton_rtol=1e-8, fixed_point_atol=1e-8, fixed_point_rtol=1e-8, **kw)
     options = faults.OptionsProxy(real, plan, fp_decisions=cfg.get("proxy", False)) if cfg.get("proxy") else real
     faults.count_steps(system, plan)
     out = {"raised": None, "rows": None, "t_last": None, "warn_msgs": [], "stdout": ""}
@@ -193,6 +198,11 @@ def cases(tier, seed):
         for i in range(n):
             out.append({"kind": "inject", "solver": solver, "scen": scen, "flag": flag, "reuse": reuse, "first": i,
                         "n_points": n, "bound": 2 if pairs else 1})
+        # second fault kind at every Newton decision point: the iteration diverges to a non-finite residual (singletons)
+        for i in range(n):
+            if plan.log[i]["kind"] == "newton":
+                out.append({"kind": "inject", "mode": "nan", "solver": solver, "scen": scen, "flag": flag, "reuse": reuse, "first": i,
+                            "n_points": n, "bound": 1})
     # unsupported model parts: smooth wrappers on a system with a unilateral contact
     for solver in ("ScipyIVP", "ScipyDAE"):
         out.append({"kind": "unsupported", "solver": solver, "scen": "ball", "flag": False, "reuse": True})
@@ -233,7 +243,7 @@ def judge(case, fail_at, res, plan, full_rows, baseline_msgs=()):
     first = effective[0]
     solver = case["solver"]
     kind = first["kind"]
-    site_sfx = f"{solver}:{kind}"
+    site_sfx = f"{solver}:{kind}" + (":nan" if case.get("mode") == "nan" else "")
     if not case["flag"]:
         if res["raised"] is not None:
             return fails, "raised"
@@ -262,6 +272,9 @@ def judge(case, fail_at, res, plan, full_rows, baseline_msgs=()):
                                    f"warnings={res['warn_msgs'][:3]} stop times accepted={times}"))
         return fails, "returned_truncated"
     # continue_with_unconverged = True
+    if res["raised"] is not None and case.get("mode") == "nan":
+        # continuing from a non-finite iterate is meaningless; an error (e.g. from the next factorisation) is not silent
+        return fails, "raised_after_nan_despite_flag"
     if res["raised"] is not None:
         fails.append(_fail(f"raises although continue_with_unconverged is set [{site_sfx}]", case, fail_at, res, plan, res["raised"]))
         return fails, "raised_despite_flag"
@@ -305,7 +318,7 @@ def check(case):
     n_eff = 0
     evals = 0
     for fs in sets:
-        res, plan = run_once(solver, scen, flag, reuse, fs)
+        res, plan = run_once(solver, scen, flag, reuse, fs, mode=case.get("mode", "maxiter"))
         evals += 1
         f, oc = judge(case, fs, res, plan, full_rows, set(dry["warn_msgs"]))
         outcomes.add(f"{solver}:{oc}")
